@@ -104,6 +104,8 @@ def run(ctx):
     r.rule("S1", "text outside raw-text elements is emitted only through escape(), which covers the data-state delimiters", floor=2)
     r.rule("S3", "the '</' check dominates raw text emission", floor=1)
     c08.text_rules(ctx)
+    r.rule("S7", "every component of an attribute key is emitted or reported", floor=1)
+    c08.attr_key_rule(ctx)
     r.rule("Q2", "both needs-quotes classes contain the characters special in an unquoted value; empty value is quoted", floor=3)
     r.rule("Q4", "'&' and the delimiter in use are escaped in attribute values on every path", floor=3)
     c07.quoting(ctx)
